@@ -410,6 +410,50 @@ pub fn run(ctx: &Ctx) -> CheckResult {
         res.extra.insert("long_history_family_configs".into(), json!(big.len()));
         res.absorb(merge_jobs(outs));
     }
+    // parameters and Display text across a round trip for EVERY period 1..=2000 (a period re-derived from
+    // another stored quantity is wrong for isolated periods only), after one input
+    if !res.out.failed() {
+        use crate::subjects::Kind;
+        let kinds: Vec<Kind> = ALL_KINDS.iter().copied().filter(|k| k.nperiods() >= 1).collect();
+        let outs = par_run(ctx, &kinds, |_, &k| {
+            let mut out = JobOut::default();
+            let alpha = generic_alphabet(k, false);
+            for p in 1..=2000usize {
+                let cfgs: Vec<Cfg> = match k.nperiods() {
+                    1 => vec![if k.has_mult() { Cfg::pm(k, p, 2.0) } else { Cfg::p1(k, p) }],
+                    2 => vec![Cfg::p2(k, p, 3), Cfg::p2(k, 3, p)],
+                    _ => vec![Cfg::p3(k, p, 26, 9), Cfg::p3(k, 12, p, 9), Cfg::p3(k, 12, 26, p)],
+                };
+                for cfg in cfgs {
+                    out.stats.states += 1;
+                    out.stats.evaluations += 1;
+                    let r = std::panic::catch_unwind(std::panic::AssertUnwindSafe(|| {
+                        let mut a = make(&cfg);
+                        a.apply(&alpha[0]);
+                        let bytes = a.ser().map_err(|e| format!("serialize: {}", e))?;
+                        let b = a.de(&bytes).map_err(|e| format!("deserialize: {}", e))?;
+                        if params_text(b.as_ref()) != params_text(a.as_ref()) {
+                            return Err(format!("parameters {} vs {}", params_text(b.as_ref()), params_text(a.as_ref())));
+                        }
+                        Ok(())
+                    }));
+                    match r {
+                        Ok(Ok(())) => {}
+                        Ok(Err(why)) => {
+                            out.fail(Violation::new(PROP, &cfg, &alpha[..1], if why.starts_with("parameters") { "parameters-changed" } else { "deserialize-failed" }).obs(why).exp("restored copy has the same parameters and Display text".into()).with("checkpoint", "serde@1".to_string()));
+                            return out;
+                        }
+                        Err(_) => {
+                            out.fail(Violation::new(PROP, &cfg, &alpha[..1], "panic").obs("panic".into()).exp("a round trip".into()));
+                            return out;
+                        }
+                    }
+                }
+            }
+            out
+        });
+        res.absorb(merge_jobs(outs));
+    }
     // windows beyond 2^16 values (cursor / counter width on the wire)
     if !res.out.failed() {
         use crate::subjects::Kind;
@@ -444,7 +488,7 @@ pub fn run(ctx: &Ctx) -> CheckResult {
     res.extra.insert("checkpoints".into(), json!(rows));
     res.extra.insert("distinct_checkpoint_states_total".into(), json!(total_cp));
     res.rule = "case = (configuration, checkpoint history, continuation): the real indicator after the history is serialized with bincode and deserialized once and twice; every continuation of n+2 inputs over 3 values is fed to the original (rebuilt by replay) and both restored copies, outputs compared at 1e-12 relative; checkpoints de-duplicated by concrete state; non-trivial = checkpoint history at least as long as the window".into();
-    res.bounds = format!("all 22 indicators, periods 1..4 (tuples over {{1,2,3}}), every history in seq(3 (thorough: 4) values + NaN + a 3.3e7 spike + reset, {dp}) as checkpoint, all 3^(n+2) continuations over 2 values + reset; long-history family: every prefix length 0..=3n+3 of 2 default streams (with resets and a NaN) as checkpoint for periods up to 64/257 (defaults 9,10,14,20,22,12/26/9 included), 3 continuations of n+2 inputs; period 70000 on a 70010-step stream with checkpoints at 1000, 65535..65537 and 69999..70001; all 10^5 lattice DataItems that build() accepts");
+    res.bounds = format!("all 22 indicators, periods 1..4 (tuples over {{1,2,3}}), every history in seq(3 (thorough: 4) values + NaN + a 3.3e7 spike + reset, {dp}) as checkpoint, all 3^(n+2) continuations over 2 values + reset; long-history family: every prefix length 0..=3n+3 of 2 default streams (with resets and a NaN) as checkpoint for periods up to 64/257 (defaults 9,10,14,20,22,12/26/9 included), 3 continuations of n+2 inputs; parameters / Display across a round trip for every period 1..=2000 in every position; period 70000 on a 70010-step stream with checkpoints at 1000, 65535..65537 and 69999..70001; all 10^5 lattice DataItems that build() accepts");
     res.assumptions = vec!["bincode 1.3 is the serialization format exercised (the property names it)".into()];
     res
 }
